@@ -7,7 +7,8 @@
    Clauses (Focus selects the property whose clauses are evaluated):
    C05  a data chunk of an array produced by the computation is written by one task only (a repeated execution of the
         same task is the same writer) and once per execution, only by a task of the array's producer;
-        a task never reads a data chunk of an array its own operation produces (read-modify-write signature);
+        a task never finds another task's data in a chunk of an array its own operation produces (read-modify-write
+        signature; zarr's probe of an edge shard, which misses, is not one);
         every zarr-level write covers whole chunks of the target's grid (regular or rectilinear);
         at operation end the keys written cover each output's chunk grid exactly.
    C06  all writes of one key carry the same bytes (SHA-1), whenever and wherever the task is re-executed;
@@ -75,7 +76,11 @@ Step ==
                  /\ thisrun' = thisrun \cup {k} /\ held' = Put(held, k, E.h) /\ Adv
                  /\ UNCHANGED <<cur, startedOps, endedOps>>
        [] E.ev = "get" ->
-            IF P5 /\ E.data /\ Produced(E.arr) /\ cur # NoTask /\ cur[1] = Prod(E.arr) THEN Fail("C05:ReadModifyWrite")
+            \* read-modify-write signature: a task of the producing operation finds, in its own output, data written by
+            \* ANOTHER task.  (A miss, or a hit on the task's own earlier write, is zarr's harmless probe of an edge
+            \* shard / a repeated execution and is not a violation.)
+            IF P5 /\ E.data /\ E.hit /\ Produced(E.arr) /\ cur # NoTask /\ cur[1] = Prod(E.arr)
+                  /\ <<E.arr, E.key>> \in DOMAIN writer /\ writer[<<E.arr, E.key>>] # cur THEN Fail("C05:ReadModifyWrite")
             ELSE Adv /\ UNCHANGED <<cur, writer, wrote, thisrun, held, startedOps, endedOps>>
        [] E.ev = "del" ->
             IF P9 /\ E.data THEN Fail("C09:ChunkDeleted")
